@@ -24,6 +24,111 @@ def _load():
     return fn, src
 
 
+def _helper(name):
+    "AST of a module-level helper function of the translator module (re-read from the current source)"
+    import func_adl_xAOD.common.ast_to_cpp_translator as mod
+    f = getattr(mod, name, None)
+    if f is None or not inspect.isfunction(f):
+        raise ShapeError(f"literal text calls {name}, which is not a plain function of the translator module")
+    fd = ast.parse(textwrap.dedent(inspect.getsource(f))).body[0]
+    body = [st for st in fd.body if not (isinstance(st, ast.Expr) and isinstance(st.value, ast.Constant))]   # drop docstring
+    if len(fd.args.args) != 1 or len(body) != 1 or not isinstance(body[0], ast.Return):
+        raise ShapeError(f"helper {name} is not `def f(x): return <expr>`")
+    return fd.args.args[0].arg, body[0].value
+
+
+def _zstr(n, env, lit):
+    """z3 string term for a python string expression over `str(value)` (== lit) and the names in env.
+    Supported: str(value), names, string constants, +, f-strings of names/str(value), `a if c else b`, one-argument helpers."""
+    if isinstance(n, ast.Call) and isinstance(n.func, ast.Name) and n.func.id in ("str", "repr") and len(n.args) == 1 \
+            and isinstance(n.args[0], ast.Name) and n.args[0].id == "value":
+        return lit
+    if isinstance(n, ast.Name):
+        if n.id in env:
+            return env[n.id]
+        raise ShapeError(f"unknown name {n.id} in literal text")
+    if isinstance(n, ast.Constant) and isinstance(n.value, str):
+        return z3.StringVal(n.value)
+    if isinstance(n, ast.BinOp) and isinstance(n.op, ast.Add):
+        return z3.Concat(_zstr(n.left, env, lit), _zstr(n.right, env, lit))
+    if isinstance(n, ast.JoinedStr):
+        parts = []
+        for v in n.values:
+            if isinstance(v, ast.Constant):
+                parts.append(z3.StringVal(v.value))
+            elif isinstance(v, ast.FormattedValue) and v.conversion == -1 and v.format_spec is None:
+                if isinstance(v.value, ast.Name) and v.value.id == "value":
+                    parts.append(lit)          # f"{value}" of an int/float is str(value)
+                else:
+                    parts.append(_zstr(v.value, env, lit))
+            else:
+                raise ShapeError("format specification in literal text")
+        if not parts:
+            return z3.StringVal("")
+        return parts[0] if len(parts) == 1 else z3.Concat(*parts)
+    if isinstance(n, ast.IfExp):
+        return z3.If(_zcond(n.test, env, lit), _zstr(n.body, env, lit), _zstr(n.orelse, env, lit))
+    if isinstance(n, ast.Call) and isinstance(n.func, ast.Name) and len(n.args) == 1 and not n.keywords:
+        arg, body = _helper(n.func.id)
+        return _zstr(body, {arg: _zstr(n.args[0], env, lit)}, lit)
+    raise ShapeError(f"literal text not understood: {ast.unparse(n)[:80]}")
+
+
+def _zcond(n, env, lit):
+    if isinstance(n, ast.UnaryOp) and isinstance(n.op, ast.Not):
+        return z3.Not(_zcond(n.operand, env, lit))
+    if isinstance(n, ast.Call) and isinstance(n.func, ast.Attribute) and n.func.attr in ("startswith", "endswith") and len(n.args) == 1:
+        a, b = _zstr(n.func.value, env, lit), _zstr(n.args[0], env, lit)
+        return z3.PrefixOf(b, a) if n.func.attr == "startswith" else z3.SuffixOf(b, a)
+    if isinstance(n, ast.Compare) and len(n.ops) == 1 and isinstance(n.ops[0], (ast.Eq, ast.NotEq, ast.In, ast.NotIn)):
+        if isinstance(n.ops[0], (ast.In, ast.NotIn)):
+            r = z3.Contains(_zstr(n.comparators[0], env, lit), _zstr(n.left, env, lit))
+            return r if isinstance(n.ops[0], ast.In) else z3.Not(r)
+        l, r_ = n.left, n.comparators[0]
+        if isinstance(l, ast.Subscript) and isinstance(l.slice, ast.Constant) and l.slice.value == 0:
+            a = z3.SubString(_zstr(l.value, env, lit), 0, 1)
+        else:
+            a = _zstr(l, env, lit)
+        e = a == _zstr(r_, env, lit)
+        return e if isinstance(n.ops[0], ast.Eq) else z3.Not(e)
+    if isinstance(n, ast.Compare) and len(n.ops) == 1 and isinstance(n.left, ast.Name) and n.left.id == "value" \
+            and isinstance(n.comparators[0], ast.Constant) and n.comparators[0].value == 0 and isinstance(n.ops[0], (ast.Lt, ast.GtE)):
+        # value < 0  <=>  the text starts with '-'   (true for ints; for floats -0.0 prints '-0.0' but is not < 0:
+        # that case is made explicit by treating the condition as an uninterpreted choice when lit is '-0.0')
+        neg = z3.PrefixOf(z3.StringVal("-"), lit)
+        strict = z3.And(neg, lit != z3.StringVal("-0.0"))
+        return strict if isinstance(n.ops[0], ast.Lt) else z3.Not(strict)
+    raise ShapeError(f"condition in literal text not understood: {ast.unparse(n)[:80]}")
+
+
+def _literal_checks(name, kind, lang, text_ast, value_lang_cpp, t0):
+    """Obligations over ALL literal strings `lit` of the python repr language `lang`:
+       (a) the emitted text T(lit) is lit itself or lit in one pair of parentheses (value preserved, given repr round-trips);
+       (b) T(lit) is in the C++ literal grammar, possibly parenthesised;
+       (c) T(lit) does not begin with a sign, so it cannot fuse with an operator written in front of it (a--5, a++5)."""
+    out = []
+    lit = z3.String("lit")
+    T = _zstr(text_ast, {}, lit)
+    par = z3.Concat(z3.StringVal("("), lit, z3.StringVal(")"))
+    obligations = [
+        (f"{kind}: emitted text is the repr, at most parenthesised", z3.And(T != lit, T != par)),
+        (f"{kind}: emitted text is a C++ literal", z3.Not(z3.InRe(T, z3.Union(value_lang_cpp, z3.Concat(z3.Re("("), value_lang_cpp, z3.Re(")")))))),
+        (f"{kind}: emitted text cannot fuse with a preceding operator", z3.Or(z3.PrefixOf(z3.StringVal("-"), T), z3.PrefixOf(z3.StringVal("+"), T))),
+    ]
+    for nm, bad in obligations:
+        s = z3.Solver()
+        s.set("timeout", 20000)
+        s.add(z3.InRe(lit, lang), bad)
+        r = s.check()
+        if r == z3.unsat:
+            out.append(dict(name=nm, status="holds", detail=f"text = {ast.unparse(text_ast)}", witness=None, seconds=time.time() - t0))
+        elif r == z3.sat:
+            out.append(dict(name=nm, status="cex", detail=f"text = {ast.unparse(text_ast)}", witness=s.model()[lit].as_string(), seconds=time.time() - t0, literal_kind=kind))
+        else:
+            out.append(dict(name=nm, status="inconclusive", detail="solver unknown", witness=None, seconds=time.time() - t0))
+    return out
+
+
 def _branches(fn):
     """{'int': [stmts], 'float': [...], 'bool': [...], 'str': [...]} from the if/elif chain."""
     chain = None
@@ -126,8 +231,6 @@ def obligations():
     t0 = time.time()
     try:
         guards, text, ty = _rendering(br["int"])
-        if ast.unparse(text) != "str(value)":
-            raise ShapeError(f"int literal text is {ast.unparse(text)}, expected str(value)")
         if ty not in CPP_INT_RANGES:
             raise ShapeError(f"int literal typed {ty!r}")
         v = z3.Int("v")
@@ -144,14 +247,15 @@ def obligations():
             out.append(dict(name="int: every accepted integer fits its C++ type", status="cex", detail=f"typed {ty}", witness=s.model()[v].as_long(), seconds=time.time() - t0))
         else:
             out.append(dict(name="int: every accepted integer fits its C++ type", status="inconclusive", detail="solver unknown", witness=None, seconds=time.time() - t0))
+        d_ = z3.Range("0", "9")
+        nat = z3.Union(z3.Re("0"), z3.Concat(z3.Range("1", "9"), z3.Star(d_)))
+        out += _literal_checks("int", "int", z3.Concat(z3.Option(z3.Re("-")), nat), text, z3.Concat(z3.Option(z3.Re("-")), nat), t0)
     except (ShapeError, KeyError) as e:
         out.append(dict(name="int branch", status="inconclusive", detail=str(e), witness=None, seconds=time.time() - t0))
     # ---- float: regex inclusion
     t0 = time.time()
     try:
         guards, text, ty = _rendering(br["float"])
-        if ast.unparse(text) != "str(value)":
-            raise ShapeError(f"float literal text is {ast.unparse(text)}, expected str(value)")
         gsrc = " ".join(ast.unparse(g) for g in guards)
         rejects_nan = "value != value" in gsrc or "isnan" in gsrc
         rejects_inf = ("inf" in gsrc and "-inf" in gsrc) or "isinf" in gsrc or "isfinite" in gsrc
@@ -171,18 +275,7 @@ def obligations():
         frac = z3.Union(z3.Concat(z3.Star(d), z3.Re("."), digits), z3.Concat(digits, z3.Re(".")))
         cexp = z3.Concat(z3.Union(z3.Re("e"), z3.Re("E")), z3.Option(z3.Union(z3.Re("+"), z3.Re("-"))), digits)
         cpp = z3.Concat(z3.Option(z3.Re("-")), z3.Union(z3.Concat(frac, z3.Option(cexp)), z3.Concat(digits, cexp)))
-        x = z3.String("x")
-        s = z3.Solver()
-        s.set("timeout", 20000)
-        s.add(z3.InRe(x, lang), z3.Not(z3.InRe(x, cpp)))
-        r = s.check()
-        name = "float: every repr() the translator accepts is a C++ floating literal"
-        if r == z3.unsat:
-            out.append(dict(name=name, status="holds", detail=f"type {ty}; rejects nan={rejects_nan} inf={rejects_inf}", witness=None, seconds=time.time() - t0))
-        elif r == z3.sat:
-            out.append(dict(name=name, status="cex", detail="", witness=s.model()[x].as_string(), seconds=time.time() - t0))
-        else:
-            out.append(dict(name=name, status="inconclusive", detail="solver unknown", witness=None, seconds=time.time() - t0))
+        out += _literal_checks("float", "float", lang, text, cpp, t0)
         if ty != "double":
             out.append(dict(name="float literal typed double", status="cex", detail=f"typed {ty}", witness=1.5, seconds=0.0))
     except (ShapeError, KeyError) as e:
